@@ -1,7 +1,6 @@
 package main
 
 import (
-	"context"
 	"fmt"
 	"os"
 	"os/exec"
@@ -32,14 +31,60 @@ type solveOut struct {
 	solver string
 }
 
+// cpuSeconds reads the CPU time (user+system, all threads) a process has used so far.
+func cpuSeconds(pid int) float64 {
+	b, err := os.ReadFile(fmt.Sprintf("/proc/%d/stat", pid))
+	if err != nil {
+		return -1
+	}
+	t := string(b)
+	if i := strings.LastIndex(t, ")"); i >= 0 {
+		t = t[i+1:]
+	}
+	f := strings.Fields(t)
+	if len(f) < 13 {
+		return -1
+	}
+	var ut, st float64
+	fmt.Sscan(f[11], &ut)
+	fmt.Sscan(f[12], &st)
+	return (ut + st) / 100
+}
+
+// runSolver gives the solver timeoutS seconds of CPU time (not wall-clock time: a loaded
+// machine must not turn a proof into a timeout), with a generous wall-clock cap.
 func runSolver(s solverSpec, file string, timeoutS int) solveOut {
-	ctx, cancel := context.WithTimeout(context.Background(), time.Duration(timeoutS+2)*time.Second)
-	defer cancel()
+	wallCap := time.Duration(timeoutS*8+10) * time.Second
 	t0 := time.Now()
-	cmd := exec.CommandContext(ctx, s.bin, s.args(timeoutS, file)...)
-	out, _ := cmd.CombinedOutput()
+	cmd := exec.Command(s.bin, s.args(timeoutS*8+8, file)...)
+	var buf strings.Builder
+	cmd.Stdout = &buf
+	cmd.Stderr = &buf
+	killed := false
+	if err := cmd.Start(); err != nil {
+		return solveOut{result: "error", output: err.Error(), solver: s.name}
+	}
+	done := make(chan struct{})
+	go func() { cmd.Wait(); close(done) }()
+	tick := time.NewTicker(50 * time.Millisecond)
+poll:
+	for {
+		select {
+		case <-done:
+			break poll
+		case <-tick.C:
+			if c := cpuSeconds(cmd.Process.Pid); c >= float64(timeoutS) || time.Since(t0) > wallCap {
+				killed = true
+				cmd.Process.Kill()
+				<-done
+				break poll
+			}
+		}
+	}
+	tick.Stop()
+	out := buf.String()
 	secs := time.Since(t0).Seconds()
-	text := string(out)
+	text := out
 	first := ""
 	for _, ln := range strings.Split(text, "\n") {
 		ln = strings.TrimSpace(ln)
@@ -57,7 +102,7 @@ func runSolver(s solverSpec, file string, timeoutS int) solveOut {
 		res = "sat"
 	case first == "unknown":
 		res = "unknown"
-	case first == "timeout" || ctx.Err() != nil || strings.Contains(text, "timeout") || strings.Contains(text, "interrupted"):
+	case first == "timeout" || killed || strings.Contains(text, "timeout") || strings.Contains(text, "interrupted"):
 		res = "timeout"
 	}
 	return solveOut{result: res, output: text, secs: secs, solver: s.name}
